@@ -11,6 +11,7 @@ import (
 	"os"
 	"os/exec"
 	"path/filepath"
+	"runtime/pprof"
 	"sort"
 	"strconv"
 	"strings"
@@ -62,7 +63,13 @@ func cmdWorker(args []string) int {
 	shards := fs.Int("shards", 1, "")
 	out := fs.String("out", "", "")
 	deadline := fs.Int("deadline", 0, "seconds")
+	prof := fs.String("cpuprofile", "", "")
 	_ = fs.Parse(args)
+	if *prof != "" {
+		pf, _ := os.Create(*prof)
+		_ = pprof.StartCPUProfile(pf)
+		defer pprof.StopCPUProfile()
+	}
 	c := registry.Get(*prop)
 	if c == nil {
 		fmt.Println("unknown property", *prop)
